@@ -8,6 +8,7 @@
   the printer never reads `loc`, and a re-parsed text has other positions by construction.
 -/
 import PyGqlModel.Lemmas.PrintTokens
+import PyGqlModel.Lemmas.PrintLexFloat
 import PyGqlModel.Props.C01_parse
 namespace PyGql.Props.C03
 open PyGql PyGql.Ast PyGql.Parse PyGql.Spec PyGql.Print PyGql.PrintLex PyGql.PrintMatch PyGql.PrintTokens PyGql.Lex
@@ -78,6 +79,24 @@ example : ∃ toks, lexAll (printValue (mkCfg (.width 2)) exV) = .ok toks ∧ pa
   print_parse_value _ rfl _ exV
     (by simp only [exV, lexOkValue, lexOkValues, lexOkField, lexOkFields, Bool.false_eq_true, false_implies, true_and, and_true]; decide) (by decide) (by decide)
 example : printValue (mkCfg (.width 2)) exV = textOfString "[1, \"a\\\"😀\", true, null, E, $v, {k: [-2]}]" := by decide
+
+/-- `float_lexeme_spec`: the hypothesis `FloatLexeme` of `lexOkValue` holds for EVERY FloatValue lexeme of the
+    specification (`Spec.Lexical.isFloatValue`: IntegerPart FractionalPart? ExponentPart?, not both absent): followed by
+    a delimiter it is read by `_read_number` as one Float token with that value.  With it `print_parse_value` is
+    unconditional for every value without block strings. -/
+theorem float_lexeme_spec (w : Text) (h : Spec.Lexical.isFloatValue w = true) : FloatLexeme w :=
+  floatLexeme_of_isFloatValue w h
+
+/-- non-vacuity with floats: `{x: [-1.5e-3, 0.0, 2E+1]}` -/
+private def exF : Value :=
+  .object [.mk ⟨[120], none⟩ (.list [.float [45, 49, 46, 53, 101, 45, 51] none, .float [48, 46, 48] none,
+    .float [50, 69, 43, 49] none] none) none] none
+example : ∃ toks, lexAll (printValue (mkCfg (.str [9])) exF) = .ok toks ∧ parseValue { noLocation := true } toks = .ok exF :=
+  print_parse_value _ rfl _ exF
+    (by
+      simp only [exF, lexOkValue, lexOkValues, lexOkField, lexOkFields, and_true]
+      exact ⟨by decide, float_lexeme_spec _ (by decide), float_lexeme_spec _ (by decide), float_lexeme_spec _ (by decide)⟩)
+    (by decide) (by decide)
 
 /-- `print_stable` for types and values: printing the re-parsed tree reproduces the same text -/
 theorem print_stable_type (fl : Flags) (hnl : fl.noLocation = true) (t : TypeRef) (hl : lexOkType t = true)
